@@ -19,19 +19,26 @@ use beff_core::wasm_diag::WasmDiagnostic;
 use log::Level;
 use module_resolver::WasmModuleResolver;
 use std::rc::Rc;
-use std::{cell::RefCell, collections::HashMap};
+use std::{
+    cell::RefCell,
+    collections::{HashMap, HashSet},
+};
 use swc_common::{GLOBALS, Globals};
 use wasm_bindgen::JsValue;
 use wasm_bindgen::prelude::wasm_bindgen;
 
 struct Bundler {
     pub files: HashMap<BffFileName, Rc<ParsedModule>>,
+    /// cached files with an import that did not resolve when they were parsed: the target may exist
+    /// by the next build, so they are parsed again then
+    pub unresolved: HashSet<BffFileName>,
 }
 
 impl Bundler {
     pub fn new() -> Bundler {
         Bundler {
             files: HashMap::new(),
+            unresolved: HashSet::new(),
         }
     }
 }
@@ -96,6 +103,7 @@ fn parse_entrypoints(parser_entry_point: &str, settings: &str) -> EntryPoints {
 }
 struct LazyFileManager<'a> {
     pub files: &'a mut HashMap<BffFileName, Rc<ParsedModule>>,
+    pub unresolved: &'a mut HashSet<BffFileName>,
 }
 
 impl FileManager for LazyFileManager<'_> {
@@ -110,6 +118,9 @@ impl FileManager for LazyFileManager<'_> {
         match res {
             Ok(f) => {
                 self.files.insert(file_name.clone(), f.clone());
+                if resolver.had_unresolved() {
+                    self.unresolved.insert(file_name.clone());
+                }
                 Some(f)
             }
             Err(err) => {
@@ -137,8 +148,14 @@ fn run_extraction(entry: EntryPoints) -> ParserExtractResult {
     GLOBALS.set(&SWC_GLOBALS, || {
         BUNDLER.with(|b| {
             let mut b = b.borrow_mut();
+            let b = &mut *b;
+            // imports that did not resolve last time are resolved again: parse those files anew
+            for f in b.unresolved.drain() {
+                b.files.remove(&f);
+            }
             let mut man = LazyFileManager {
                 files: &mut b.files,
+                unresolved: &mut b.unresolved,
             };
 
             // res.self_check_sem_types();
@@ -169,14 +186,20 @@ fn bundle_to_diagnostics_inner(entry: EntryPoints) -> WasmDiagnostic {
 
 fn update_file_content_inner(file_name: &str, content: &str) {
     let file_name = BffFileName::new(file_name.to_string());
-    let res = GLOBALS.set(&SWC_GLOBALS, || {
+    let (res, had_unresolved) = GLOBALS.set(&SWC_GLOBALS, || {
         let mut resolver = WasmModuleResolver::new();
-        parse_and_bind(&mut resolver, &file_name, content)
+        let res = parse_and_bind(&mut resolver, &file_name, content);
+        (res, resolver.had_unresolved())
     });
     BUNDLER.with(|b| {
         let mut b = b.borrow_mut();
         match res {
             Ok(f) => {
+                if had_unresolved {
+                    b.unresolved.insert(file_name.clone());
+                } else {
+                    b.unresolved.remove(&file_name);
+                }
                 b.files.insert(file_name, f);
             }
             // the previous parse no longer describes the file: drop it, so that the next build
